@@ -187,7 +187,7 @@ BANNERS = [b"SSH-2.0-\xff\xfe\xfd", b"SSH-1.0-old", b"SSH-2.0", b"NOTSSH", b"SSH
            b"SSH-9.9-x y z", b"\x00\x01\x02", b"SSH-2.0-x\x00y"]
 
 
-def fuzz_session(victim, index, kind, seed, kex=None, banner=None):
+def fuzz_session(victim, index, kind, seed, kex=None, banner=None, pk=False):
     """One scripted session; the attacker's ``index``-th outgoing packet is mutated with ``kind``.
     Returns (events, mutated_type) where events = [(where, exception)] seen on the victim side."""
     import random
@@ -201,7 +201,12 @@ def fuzz_session(victim, index, kind, seed, kex=None, banner=None):
     kw = {}
     if kex:
         kw["disabled_algorithms"] = {"kex": kex}
-    tc = Transport(sc, **kw)
+    if pk:  # the newer client flavour: service request + public-key auth run on the caller's thread
+        from paramiko.transport import ServiceRequestingTransport
+
+        tc = ServiceRequestingTransport(sc, **kw)
+    else:
+        tc = Transport(sc, **kw)
     ts = Transport(ss, **kw)
     ts.add_server_key(lib_net.hostkey())
     for t in (tc, ts):
@@ -252,7 +257,10 @@ def fuzz_session(victim, index, kind, seed, kex=None, banner=None):
             c("start_client", lambda: tc.start_client(timeout=4))
             if not tc.is_active():
                 return
-            c("auth_password", lambda: tc.auth_password("u", "pw"))
+            if pk:
+                c("auth_publickey", lambda: tc.auth_publickey("u", lib_net.hostkey()))
+            else:
+                c("auth_password", lambda: tc.auth_password("u", "pw"))
             if not tc.is_authenticated():
                 return
             ch = c("open_session", lambda: tc.open_session(timeout=2.5))
@@ -354,9 +362,11 @@ def run(ctx):
             for idx in range(n_idx):
                 for kind in MUTATIONS:
                     for s in range(seeds):
-                        jobs.append((victim, idx, kind, (ctx.seed, victim, idx, kind, s).__repr__(), kx, None))
+                        jobs.append((victim, idx, kind, (ctx.seed, victim, idx, kind, s).__repr__(), kx, None, False))
+                        if victim == "client" and kx is None and idx < 8:
+                            jobs.append((victim, idx, kind, (ctx.seed, victim, idx, kind, s, "pk").__repr__(), kx, None, True))
         for b in BANNERS:
-            jobs.append((victim, -1, "banner", "b", None, b))
+            jobs.append((victim, -1, "banner", "b", None, b, False))
     ctx.rng.shuffle(jobs)
 
     def do(job):
@@ -369,7 +379,7 @@ def run(ctx):
         results = list(ex.map(do, jobs))
     infra = 0
     for job, res in results:
-        victim, idx, kind, seed, kx, banner = job
+        victim, idx, kind, seed, kx, banner, pk = job
         if isinstance(res, Exception):
             infra += 1
             ctx.dist("harness-error:" + type(res).__name__)
@@ -390,7 +400,7 @@ def run(ctx):
                         "surfaced": [(w, type(e).__name__) for w, e in events][:4]})
         for where, e in events:
             if not isinstance(e, (SSHException, EOFError, OSError)):
-                ctx.fail(exc_site(e), {"victim": victim, "packet_index": idx, "msg_type": mtype, "mutation": kind,
+                ctx.fail(exc_site(e), {"victim": victim, "pubkey_client": pk, "packet_index": idx, "msg_type": mtype, "mutation": kind,
                                        "seed": seed, "banner": banner.hex() if banner else None, "api": where},
                          "%s raised/returned %r" % (where, e))
     if infra > len(jobs) // 10:
